@@ -220,7 +220,8 @@ class _Rep:
         self.v, self.n = v, n
 
 
-UNITS = [ApplyWindowBody(), WindowIndex()] + [u for u in compiled.UNITS if "C07" in u.props]
+from .c14_nx import ToNetworkx
+UNITS = [ApplyWindowBody(), WindowIndex(), ToNetworkx()] + [u for u in compiled.UNITS if "C07" in u.props]
 
 
 def check(tier, seed):
@@ -228,13 +229,14 @@ def check(tier, seed):
     n = 12 if tier == "quick" else 96
     res = bounded.run_native("c07_schedule.py", ["--n", str(n), "--seed", str(seed)])
     lines, ev, err = bounded.report("C07", "compiled schedule vs executable contract", res, "c07_schedule.py")
-    extra = dict(level="other", explanation="Hybrid: the rex-side scan body of apply_window and Window.push are proved (obligations / discharged below); the schedule itself (supergraph library, to_timings, "
-                 "to_networkx_graph, to_connected_graph, window selection) is validated on instances by the bounded stand-in, which is NOT a proof.",
+    extra = dict(level="other", explanation="Hybrid: the rex-side scan body of apply_window, Window.push and to_networkx_graph (loop invariants over arrays of any length: exactly the executed vertices, the chaining of consecutive steps and the real "
+                 "messages become vertices / edges) are proved (obligations / discharged below); the schedule itself (supergraph library, to_timings, to_connected_graph, window selection) is validated on instances by the bounded stand-in, which is NOT a proof.",
                  bounded=[dict(ev, bound=f"{n} random 3-node systems (rates 1..20 Hz, windows 1..4, trainable / jittery delays, MCS / generational / topological x prune, 1-2 episodes): on the objects built by the real "
                                           "pipeline - every needed vertex mapped exactly once, kind-preserving, supervisor step p in partition p; slot carries the vertex's own seq / times / windows; run mask true exactly "
                                           "where mapped; per-kind sequence order; every window producer strictly before its consumer; windows = last `window` (+extension) consumed messages, oldest first")],
                  assumptions=["the supergraph library's result (grow_supergraph / evaluate_supergraph) is NOT under contract: it is validated on the instances above only (bounded)",
-                              "to_networkx_graph / to_connected_graph / to_timings / the window selection of apply_window are covered by the bounded stand-in; apply_window's scan body and Window.push are proved"])
+                              "to_connected_graph / to_timings / the window selection of apply_window are covered by the bounded stand-in; apply_window's scan body, Window.push and to_networkx_graph are proved",
+                              "networkx.DiGraph is modelled by its abstract state (vertex set with attributes, edge set with attributes; add_edge creates missing endpoints); vertex names f'{kind}_{seq}' are kept as the pair (kind, seq)"])
     code = check_property("C07", UNITS, tier, seed, extra=extra)
     if lines:
         for l in lines:
